@@ -229,6 +229,17 @@ func (w *World) Alloc(ty string, ch, l, k int) string {
 	return res
 }
 
+// AllocWith registers a buffer allocated by mk (an element type the dispatch table does not know) as an Alloc event.
+func (w *World) AllocWith(name, kind string, ch, l, k int, mk func() View) string {
+	var nv View
+	res := run(func() { nv = mk() })
+	if res == "ok" {
+		w.Views = append(w.Views, nv)
+	}
+	w.emit(&Event{Op: "Alloc", Args: []int{ch, l, k}, Ty: name, Kind: kind, Res: res, Cnt: -1, Allocs: -1})
+	return res
+}
+
 func (w *World) Slice(v, s, e int) string {
 	var nv View
 	res := run(func() { nv = w.Views[v].Slice(s, e) })
